@@ -2,11 +2,14 @@
 C03 (BC1–BC5 part) — blocks decode to the values the format specification defines.
 
 Only property theorems and non-vacuity examples live here; helper lemmas are in `Proofs/BcFinite.lean`
-(finite domains, `decide +kernel`), `Proofs/Bc.lean`, `Proofs/BcPixels.lean` (generic).  All statements are
+(finite domains, `decide +kernel`), `Proofs/Bc.lean`, `Proofs/BcPixels.lean` (generic) and, for the `f32`
+computation of BC3n, `Proofs/F32Fast.lean`, `F32Raw.lean`, `Bc3nCalc.lean`, `Bc3nRows0…7.lean`, `Bc3nAll.lean`,
+`Bc3nBlock.lean`.  All statements are
 about the implementation-shaped model `Bc.lean` (tied to the code by the correspondence check) and the
 specification-shaped model `BcSpec.lean`, for EVERY block `blk : Nat → Nat` of bytes.  BC6H/BC7: C03x.
 -/
 import DdsModel.Proofs.BcPixels
+import DdsModel.Proofs.Bc3nBlock
 import DdsModel.Drv.C03
 namespace Dds.C03
 open Dds Dds.Bc
@@ -162,17 +165,29 @@ theorem variants (pr : Prec) (blk : Nat → Nat) (hb : IsBlock blk) :
   ⟨decodeBlock_eq .bc2p (by decide) pr blk hb, decodeBlock_eq .bc3p (by decide) pr blk hb,
    decodeBlock_eq .rxgb (by decide) pr blk hb⟩
 
-/-- BC3n (`BC3_UNORM_NORMAL`): R is the BC3 alpha, G the BC3 green — both equal to the specification —
-and B is `calc_b(R, G)` (an `f32` computation, modelled operation by operation).
-PARTIAL: the missing clause is `∀ r g < 256, calcB r g = BcSpec.z8 r g` (nearest 8-bit value of
-`255·(½√(1−x²−y²)+½)`); it holds on all 65 536 pairs by compiled evaluation (notes/C03.md) and the
-implementation is compared with the oracle's squared-interval test on every reachable pair in the tie,
-but it is not kernel-checked here (≈ 10⁶ software-float operations on rationals). -/
-theorem bc3n_partial (blk : Nat → Nat) (hb : IsBlock blk) (p : Nat) (hp : p < 16) :
+/-- BC3n `calc_b` (`bc3n_u8_rgb`, src/decode/bc.rs: `x = r as f32 * (2.0/255.0) - 1.0`, likewise `y`,
+`z = (1.0 - x*x - y*y).max(0.0).sqrt()`, `(z * 127.5 + 128.0) as u8`, every operation a correctly rounded
+binary32 operation of `F32.lean`): for EVERY pair of channel values the result is the specification's `z8`,
+the nearest 8-bit value of `255·(½·√(1 − x² − y²) + ½)` with exact `x = 2r/255 − 1`, `y = 2g/255 − 1`.
+Kernel-checked on all 65 536 pairs (no `native_decide`): the float operations are evaluated on integers by
+versions proved equal to the `F32.lean` operations for all arguments. -/
+theorem bc3n_calcB_eq_spec (r g : Nat) (hr : r < 256) (hg : g < 256) : Bc.calcB r g = BcSpec.z8 r g :=
+  Bc3n.calcB_eq_z8 r g hr hg
+
+/-- BC3n (`BC3_UNORM_NORMAL`): all three channels of all 16 pixels equal the specification — R is the BC3
+alpha, G the BC3 green, B the nearest 8-bit `z` of the unit normal — for every block, at U8, U16 and F32
+(the 16-bit and float outputs are the exact widening of the 8-bit pixel, as for BC1–BC3). -/
+theorem bc3n_eq_spec (pr : Prec) (blk : Nat → Nat) (hb : IsBlock blk) :
+    Bc.decodeBlock .bc3n pr blk = BcSpec.decodeBlock .bc3n pr blk :=
+  decodeBlock_eq_all .bc3n pr blk hb
+
+/-- the 8-bit BC3n pixel spelled out: `[alpha, green, z8 alpha green]` of the specification's BC3 pixel -/
+theorem bc3n_pixel (blk : Nat → Nat) (hb : IsBlock blk) (p : Nat) (hp : p < 16) :
     Bc.px8 .bc3n blk p =
       [BcSpec.rnd (255 * BcSpec.bc4uVal blk 0 p), (BcSpec.colorPx false blk 8 p).2.1,
-       Bc.calcB (BcSpec.rnd (255 * BcSpec.bc4uVal blk 0 p)) (BcSpec.colorPx false blk 8 p).2.1] :=
-  px8_bc3n blk hb p hp
+       BcSpec.z8 (BcSpec.rnd (255 * BcSpec.bc4uVal blk 0 p)) (BcSpec.colorPx false blk 8 p).2.1] := by
+  rw [px8_bc3n_eq blk hb p hp]
+  rfl
 
 instance (r g k : Nat) : Decidable (BcSpec.zNearest r g k) := by unfold BcSpec.zNearest; infer_instance
 
@@ -187,6 +202,12 @@ theorem z8_nearest : ∀ r, r < 256 → ∀ g, g < 256 → BcSpec.zNearest r g (
   unfold zChk at h1
   rw [List.all_eq_true] at h1
   exact of_decide_eq_true (h1 g (List.mem_range.mpr hg))
+
+/-- the implementation's B channel satisfies the root-free characterisation directly:
+`2·B − 256 ≤ √D ≤ 2·B − 254` with `D = 255² − (2r − 255)² − (2g − 255)²` clamped at 0 -/
+theorem bc3n_calcB_nearest (r g : Nat) (hr : r < 256) (hg : g < 256) : BcSpec.zNearest r g (Bc.calcB r g) := by
+  rw [bc3n_calcB_eq_spec r g hr hg]
+  exact z8_nearest r hr g hg
 
 /-! ### the compiled driver evaluates exactly the model -/
 
@@ -242,5 +263,13 @@ example : Bc.decodeBlock .bc4u .f32 (fun i => [1, 1, 0x88, 0xC6, 0xFA, 0x88, 0xC
     = (List.range 16).map (fun p => if p % 8 = 6 then [0] else if p % 8 = 7 then [0x3F800000] else [0x3B808081]) := by
   decide +kernel
 example : Nearest 128 31 62 255 ∧ Nearest 127 31 62 255 := by decide
+/-- BC3n: a flat normal (x = y ≈ 0) gives z = 255; a vector outside the unit disc is clamped (z = 0 ↦ 128) -/
+example : Bc.calcB 128 128 = 255 ∧ Bc.calcB 255 255 = 128 ∧ Bc.calcB 128 170 = 248 ∧ Bc.calcB 40 200 = 185 := by
+  decide +kernel
+/-- a BC3n block: alpha 128 everywhere (x ≈ 0), green 255, 0, 170, 85 (y = 1, −1, ⅓, −⅓) -/
+def nsample (i : Nat) : Nat := [128, 128, 0, 0, 0, 0, 0, 0, 0xE0, 0x07, 0x00, 0x00, 0xE4, 0xE4, 0xE4, 0xE4].getD i 0
+example : IsBlock nsample := fun i => getD_lt _ (by decide) i
+example : (Bc.decodeBlock .bc3n .u8 nsample).take 4 = [[128, 255, 128], [128, 0, 128], [128, 170, 248], [128, 85, 248]] := by
+  decide +kernel
 
 end Dds.C03
